@@ -192,7 +192,9 @@ def main(run):
 
     run.cov["rule"] = (
         "polar prototypes (nacl_prim, zincblende_prim, cscl, wurtzite, perovskite) x supercell matrix (det <= 4) x full/compact x "
-        "OpenMP/serial x nac factor of several calculators x {wang, gonze}; Born charges/dielectric tensor random (entries k/8) and "
+        "OpenMP/serial x nac factor of several calculators x {wang, gonze}, interleaved with low-symmetry cells (triclinic P1 with 3 atoms, "
+        "monoclinic, random P1 cells with 2-3 atoms) where the Born tensors stay non-symmetric (Z_ab != Z_ba, counted); Born charges random "
+        "non-symmetric with the acoustic sum rule, dielectric tensor random symmetric positive definite (entries k/8), both "
         "symmetrised by phonopy; q in {Gamma with direction, Gamma without, non-zero commensurate, generic}; directions random "
         "with lengths 1e-2..3e2. Non-trivial = non-zero Born charges and (direction at Gamma or q != 0). Each case also runs the "
         "zero-Born-charge variant and the three limits on the implementation.")
@@ -211,7 +213,11 @@ def main(run):
         "Gonze-Lee no-op at commensurate q is checked to 1e-6 relative (truncated reciprocal sum), Wang to 1e-9",
     ]
 
-    names = ["nacl_prim", "zincblende_prim", "cscl", "wurtzite", "perovskite"]
+    # high-symmetry polar prototypes interleaved with low-symmetry cells (P1 / monoclinic), where the
+    # symmetrised Born tensors stay non-symmetric (Z_ab != Z_ba) and dd_q0 blocks are not symmetric
+    # before their Hermitisation
+    names = ["nacl_prim", "triclinic", "zincblende_prim", "mono_P", "cscl", "random_p1", "wurtzite", "perovskite"]
+    low_sym = ("triclinic", "mono_P", "random_p1")
     factors = sorted({float(get_default_physical_units(c)["nac_factor"]) for c in ("vasp", "qe", "abinit", "wien2k", "siesta", "crystal", "dftbp")
                       if get_default_physical_units(c)["nac_factor"] is not None})
     ncases = 24 if thorough else 8
@@ -221,7 +227,10 @@ def main(run):
     while made < ncases and attempts < 30 * ncases:
         attempts += 1
         name = names[made % len(names)] if attempts < 3 * ncases else rng.choice(names[:3])
-        cell, cen = _cell(name)
+        if name == "random_p1":
+            cell, cen = gen.random_cell(rng, natom=rng.choice([2, 3])), "P"
+        else:
+            cell, cen = _cell(name)
         smat = rng.choice(gen.supercell_matrices(rng, max_det=4, count=12))
         if len(cell) * int(round(np.linalg.det(smat))) > nmax or int(round(np.linalg.det(smat))) < 2:
             continue
@@ -240,7 +249,12 @@ def main(run):
         fc_used = phi if full else F.full_fc_to_compact_fc(prim, phi)
         factor = rng.choice(factors)
         born0, eps0 = U.random_born_eps(rng, npa)
+        born0 = born0 - born0.mean(axis=0)  # acoustic sum rule; tensors themselves are NOT symmetric
         born_s, eps_s = symmetrize_borns_and_epsilon(born0, eps0, prim)
+        z_asym = float(max(np.abs(z - z.T).max() for z in born_s))
+        run.count("Born tensors non-symmetric after symmetrisation (Z_ab != Z_ba)" if z_asym > 1e-3 else "Born tensors symmetric after symmetrisation")
+        if name in low_sym and z_asym <= 1e-3:
+            run.count("low-symmetry cell with symmetric Born tensors (unexpected)")
         rec = np.array(np.linalg.inv(prim.cell), dtype="double", order="C")
         smat_p = np.rint(np.linalg.inv(prim.primitive_matrix)).astype(int)
         cp = get_commensurate_points(smat_p)
@@ -255,6 +269,7 @@ def main(run):
         if np.abs(n1).max() == 0:
             n1 = np.array([1.0, 0, 0])
         lam = rng.choice([0.01, 0.25, 3.0, 300.0])
+        extra_dirs = [np.array([rng.randint(-9, 9) / 3.0 + 0.05 * (k + 1) for k in range(3)]) * rng.choice([0.02, 1.0, 50.0]) for _ in range(2 if name in low_sym else 1)]
         info0 = dict(cell=name, smat=np.asarray(smat).tolist(), layout="full" if full else "compact", variant=variant, factor=factor,
                      born=born_s.tolist(), dielectric=eps_s.tolist())
         made += 1
@@ -305,7 +320,7 @@ def main(run):
 
         # Gonze-Lee: the model is compared on a reduced reciprocal sum (about 40 G points; exact rational
         # sums over 300 different denominators are too slow), the limits are checked on the default one too
-        n_g = rng.choice([30, 40, 50]) if npa <= 2 else (20 if npa <= 4 else 14)
+        n_g = rng.choice([30, 40, 50]) if npa <= 2 else (24 if npa <= 3 else (20 if npa <= 4 else 14))
         if thorough:
             n_g *= 2
         g_small = (3 * n_g / (4 * np.pi) / prim.volume) ** (1.0 / 3)
@@ -332,6 +347,13 @@ def main(run):
                 results[tag] = impl
                 run.case(("nac", name, np.asarray(smat).tolist(), full, method, factor, born_s.tobytes(), eps_s.tobytes(), tuple(qv), None if dr is None else tuple(dr)),
                          nontrivial=(dr is not None or np.abs(qv).max() > 0))
+                if z_asym > 1e-3:
+                    run.count("requests with Z_ab != Z_ba (%s)" % method)
+                # Hermiticity of every returned matrix
+                if np.abs(impl - impl.conj().T).max() > 1e-9 * max(sc, 1.0):
+                    run.violation("Phonopy.run_qpoints", "not-hermitian-%s" % method,
+                                  "dynamical matrix with NAC is not Hermitian (max |D - D^H| = %.3g) at %s" % (float(np.abs(impl - impl.conj().T).max()), tag),
+                                  dict(info, q=list(map(float, qv)), direction=None if dr is None else list(map(float, dr))))
                 # the API only forwards the direction at the zone centre in the serial build; the kernel ignores it elsewhere
                 dr_eff = dr if np.abs(qv).max() < 1e-5 else None
                 nacl, qc, dcart = _nac_in(rec, qv, dr_eff, E, Z)
@@ -352,6 +374,12 @@ def main(run):
             if method == "gonze":
                 fcsr, ddq0, Gc, Gl, Lam = dm.Gonze_nac_dataset
                 run.count("G points %d" % (10 * (len(Gl) // 10)))
+                z0 = np.array(ddq0)
+                herr0 = float(np.abs(z0 - z0.conj().transpose(0, 2, 1)).max())
+                if herr0 > 1e-9 * max(1.0, float(np.abs(z0).max())):
+                    run.violation("DynamicalMatrixGL._dd_q0", "dd_q0-block-not-hermitian",
+                                  "a 3x3 block of dd_q0 is not Hermitian (max deviation %.3g, scale %.3g)" % (herr0, float(np.abs(z0).max())), info)
+                run.count("dd_q0 block symmetry oracle", section="oracle")
             if method == "gonze" and corr:
                 lines.append("ddq0 %d %s %s %s %s" % (npa, q(TOLSQ), U.flat(E), U.flat(Z), _g_in(Gl, np.zeros(3), E, Lam, prim.positions)))
                 meta.append(("gonze-dd_q0", info, lambda line, z=np.array(ddq0): _cmp(U.parse_complex(line, z.shape), z)))
@@ -366,6 +394,16 @@ def main(run):
                     run.violation("Phonopy.run_qpoints(nac_q_direction)", "gamma-limit-%s" % method,
                                   "D(Gamma; n) - D(Gamma) differs from (4pi/V) f (n.Z)(n.Z)/(n.eps.n)/sqrt(mm') by %.3g" % U.maxdiff(diff, pred),
                                   dict(info, direction=n1.tolist()))
+                for n_extra in extra_dirs:
+                    if not _margin_ok(rec, gam, n_extra):
+                        continue
+                    dg = _run_dm(ph, gam, n_extra) - plain["gamma"]
+                    pe = _closed_form(prim, Z, E, f, n_extra)
+                    if not U.close(dg, pe, TOL, sc_dd):
+                        run.violation("Phonopy.run_qpoints(nac_q_direction)", "gamma-limit-%s" % method,
+                                      "D(Gamma; n) - D(Gamma) differs from (4pi/V) f (n.Z)(n.Z)/(n.eps.n)/sqrt(mm') by %.3g" % U.maxdiff(dg, pe),
+                                      dict(info, direction=list(map(float, n_extra))))
+                    run.count("gamma-limit directions checked", section="oracle")
                 if _margin_ok(rec, gam, lam * n1):
                     scaled = _run_dm(ph, gam, lam * n1)
                     if not U.close(scaled, results["gamma+dir"], TOL, sc):
